@@ -477,7 +477,8 @@ def synth_ff_text(rnd):
     used = set()
     for li in range(nlinks):
         kind = rnd.choice(['bond+', 'bond+', 'angle', 'dihedral', 'gt', 'star', 'nonedge', 'pattern', 'molmeta', 'replace',
-                           'remove', 'override', 'explicit-order', 'choice', 'geom', 'star-intra', 'gt-intra', 'same-order'])
+                           'remove', 'override', 'explicit-order', 'choice', 'geom', 'star-intra', 'gt-intra', 'same-order',
+                           'three-orders', 'three-orders'])
         out.append('[ link ]')
         if kind == 'bond+':
             if rnd.random() < 0.5:
@@ -500,6 +501,17 @@ def synth_ff_text(rnd):
         elif kind == 'same-order':
             # both atoms must sit in one residue although a cross-residue A-B bond may exist
             out += ['[ pairs ]', 'A B 1 0.1 0.2', '[ edges ]', 'A B']
+        elif kind == 'three-orders':
+            # three different order prefixes in one link, at least one symbolic: every PAIR of them constrains the residues
+            sym = rnd.choice(['>', '>>', '<', '<<', '*', '**'])
+            others = rnd.sample(['', '+', '-', '++', '>', '>>', '<', '*'], 2)
+            pre = [sym] + [o for o in others if o != sym]
+            while len(pre) < 3:
+                pre.append(rnd.choice([o for o in ['', '+', '-', '>', '<', '*', '>>'] if o not in pre]))
+            rnd.shuffle(pre)
+            names3 = [rnd.choice(['A', 'A', 'B']) for _ in pre]
+            out += ['[ angles ]', '%s%s %s%s %s%s 2 %d 55 {"version": %d}' % (pre[0], names3[0], pre[1], names3[1], pre[2], names3[2],
+                                                                          rnd.choice([101, 102]), 8 + li)]
         elif kind == 'nonedge':
             # one to three non-edges, towards the next / previous / own residue, from either link atom
             ne = rnd.sample(['A +A', 'A +B', 'B +A', 'A -A', 'A +C', 'B +B', 'A C', 'B -B'], rnd.choice([1, 1, 2, 3]))
